@@ -56,6 +56,23 @@ TWrite == /\ Ev.op = "write"
           /\ WObsOK(Ev)
           /\ UNCHANGED <<rvars, ddst, wpend>>
 
+(* --- the wrapped reader is a standard-library reader (a *bytes.Buffer that    *)
+(* grows, *strings.Reader, *bytes.Reader, *bufio.Reader, a pipe): it cannot   *)
+(* be scripted or intercepted, so its answer is what was observed - k bytes   *)
+(* consumed from it, and the error Read came back with.                       *)
+TGrow == /\ Ev.op = "grow"
+         /\ Grow(Ev.len)
+         /\ UNCHANGED <<wvars, ddst, wpend, rsteps>>
+TSRead == /\ Ev.op = "sread"
+          /\ \/ /\ ReadLimit(Ev.buf)
+                /\ Ev.err = "Limit" /\ Ev.elim = lim /\ Ev.n = 0 /\ Ev.k = 0
+             \/ /\ Ev.err # "Limit"
+                /\ ReadThrough(Ev.buf, Ev.k, Ev.err)
+                /\ Ev.n = Ev.k
+                /\ (Ev.n > 0 => Ev.from = rlast'.from)
+          /\ ddst' = dl'
+          /\ UNCHANGED <<wvars, wpend>>
+
 (* --- reader driven through io.Copy / CopyBuffer / CopyN / ReadAll / optional interfaces *)
 (* a request that reached r during the driver call *)
 TDrvReq == /\ Ev.op = "rreq"
@@ -100,7 +117,7 @@ TCRet == /\ Ev.op = "cret"
 
 TNext == /\ l <= Len(Trace)
          /\ l' = l + 1
-         /\ (TNewR \/ TRead \/ TNewW \/ TWrite \/ TDrvReq \/ TDrvDst \/ TDrvRet \/ TSupply \/ TWCall \/ TCRet)
+         /\ (TNewR \/ TRead \/ TNewW \/ TWrite \/ TGrow \/ TSRead \/ TDrvReq \/ TDrvDst \/ TDrvRet \/ TSupply \/ TWCall \/ TCRet)
          /\ UNCHANGED <<rsteps, wsteps>>
 (* ForwardedPrefix while data supplied by a driver is still on its way. *)
 TForwardedPrefix == (wpend = 0 \/ wlim - off = 0) => fwd = Min(total, wlim)
